@@ -134,6 +134,8 @@ impl Actor {
                     _ = self.cancel.cancelled() => {
                         drop(tables);
                         transaction.commit().anyerr()?;
+                        #[cfg(feature = "verif-hooks")]
+                        crate::verif_hooks::event("signedpackets.commit", &[]);
                         return Ok(());
                     }
                     _ = &mut timeout => break,
@@ -142,6 +144,8 @@ impl Actor {
             }
             drop(tables);
             transaction.commit().anyerr()?;
+            #[cfg(feature = "verif-hooks")]
+            crate::verif_hooks::event("signedpackets.commit", &[]);
         }
         Ok(())
     }
@@ -164,6 +168,8 @@ impl Actor {
                 let replaced = match get_packet(&tables.signed_packets, &key)? {
                     Some(existing) => {
                         if existing.more_recent_than(&packet) {
+                            #[cfg(feature = "verif-hooks")]
+                            verif_upsert_event(&packet, false);
                             res.send(false).ok();
                             return Ok(());
                         } else {
@@ -186,6 +192,8 @@ impl Actor {
                     .update_time
                     .insert(&packet.timestamp().to_be_bytes(), key.as_bytes())
                     .anyerr()?;
+                #[cfg(feature = "verif-hooks")]
+                verif_upsert_event(&packet, true);
                 if replaced {
                     self.metrics.store_packets_updated.inc();
                 } else {
@@ -228,6 +236,8 @@ impl Actor {
                                 .remove(&time.to_be_bytes(), key.as_bytes())
                                 .anyerr()?;
                             let _ = tables.signed_packets.remove(key.as_bytes()).anyerr()?;
+                            #[cfg(feature = "verif-hooks")]
+                            verif_expired_event(&key, &packet);
                             self.metrics.store_packets_expired.inc();
                             debug!("removed expired packet {key}");
                         } else {
@@ -441,6 +451,8 @@ async fn evict_task_inner(send: mpsc::Sender<Message>, options: Options) -> Resu
         let _ = send.send(Message::Snapshot { res: tx }).await.ok();
         // if we can't get the snapshot we exit the loop, main actor dead
         let snapshot = rx.await.std_context("failed to get snapshot")?;
+        #[cfg(feature = "verif-hooks")]
+        crate::verif_hooks::event("signedpackets.evict.snapshot", &[]);
 
         let expired =
             Timestamp::from_micros(Timestamp::now().as_micros().saturating_sub(expiry_us));
@@ -483,9 +495,82 @@ async fn evict_task_inner(send: mpsc::Sender<Message>, options: Options) -> Resu
                     .anyerr()?;
             }
         }
+        #[cfg(feature = "verif-hooks")]
+        crate::verif_hooks::event("signedpackets.evict.round_end", &[]);
         // sleep for the eviction interval so we don't constantly check
         tokio::time::sleep(options.eviction_interval).await;
     }
+}
+
+#[cfg(feature = "verif-hooks")]
+fn verif_upsert_event(packet: &SignedPacket, stored: bool) {
+    if crate::verif_hooks::events_enabled() {
+        crate::verif_hooks::event(
+            "signedpackets.upsert",
+            &[
+                ("packet", crate::verif_hooks::store::hex(packet.as_bytes())),
+                ("stored", stored.to_string()),
+            ],
+        );
+    }
+}
+
+#[cfg(feature = "verif-hooks")]
+fn verif_expired_event(key: &PublicKeyBytes, packet: &SignedPacket) {
+    if crate::verif_hooks::events_enabled() {
+        crate::verif_hooks::event(
+            "signedpackets.expired",
+            &[
+                ("key", crate::verif_hooks::store::hex(key.as_bytes())),
+                ("timestamp", packet.timestamp().as_micros().to_string()),
+            ],
+        );
+    }
+}
+
+/// Raw content of a packet database: rows of the packet table (key, raw value, and the
+/// packet bytes as the store's own `deserialize` reads them back) and the rows of the
+/// update-time index (timestamp, key).  Missing tables read as empty.
+#[cfg(feature = "verif-hooks")]
+#[derive(Debug, Default)]
+pub(crate) struct VerifDump {
+    pub(crate) packets: Vec<([u8; 32], Vec<u8>, result::Result<Vec<u8>, String>)>,
+    pub(crate) update_time: Vec<(u64, [u8; 32])>,
+}
+
+#[cfg(feature = "verif-hooks")]
+pub(crate) fn verif_dump(db: &Database) -> Result<VerifDump> {
+    use redb::ReadableMultimapTable;
+    let tx = db.begin_read().anyerr()?;
+    let mut out = VerifDump::default();
+    match tx.open_table(SIGNED_PACKETS_TABLE) {
+        Ok(table) => {
+            for row in table.iter().anyerr()? {
+                let (k, v) = row.anyerr()?;
+                let raw = v.value().to_vec();
+                let packet = deserialize(&raw)
+                    .map(|p| p.as_bytes().to_vec())
+                    .map_err(|e| format!("{e:#}"));
+                out.packets.push((*k.value(), raw, packet));
+            }
+        }
+        Err(redb::TableError::TableDoesNotExist(_)) => {}
+        Err(err) => return Err(err).anyerr(),
+    }
+    match tx.open_multimap_table(UPDATE_TIME_TABLE) {
+        Ok(table) => {
+            for row in table.iter().anyerr()? {
+                let (time, keys) = row.anyerr()?;
+                let time = u64::from_be_bytes(time.value());
+                for key in keys {
+                    out.update_time.push((time, key.anyerr()?.value()));
+                }
+            }
+        }
+        Err(redb::TableError::TableDoesNotExist(_)) => {}
+        Err(err) => return Err(err).anyerr(),
+    }
+    Ok(out)
 }
 
 /// An io thread that drives a future to completion on the current tokio runtime
